@@ -609,4 +609,82 @@ theorem resolveG_spec (inv : Inv) (hidden : Name) (locals : List Name) (x : Name
     · rw [if_neg h1, if_neg h1, if_pos ((mem_specParams inv x).mpr h2), if_pos h2]
     · rw [if_neg h1, if_neg h1, if_neg (fun h => h2 ((mem_specParams inv x).mp h)), if_neg h2, if_neg hx]
 
+/-! ### Histories (long-running use) -/
+
+theorem histG_eq_histE (ls : List Live) (h : ∀ l ∈ ls, Supported l.inv) :
+    ∀ (evs : List Event) (s : Store), histG ls evs s = histE ls evs s := by
+  intro evs
+  induction evs with
+  | nil => intro s; rfl
+  | cons ev evs ih =>
+    intro s
+    obtain ⟨i, vs⟩ := ev
+    simp only [histG, histE]
+    cases hl : ls[i]? with
+    | none => rfl
+    | some l =>
+      have hs : Supported l.inv := h l (List.mem_of_getElem? hl)
+      simp only [expand_eq l.inv hs.1, closureG_eq_evalE l.inv hs l.body l.fuel vs s]
+      cases evalE l.inv l.body l.fuel vs s with
+      | error e => rfl
+      | ok r => simp only [ih]
+
+theorem histThen_ok_nil (s : Store) (h₂ : Store → Except Err (List Val × Store)) :
+    histThen (.ok ([], s)) h₂ = h₂ s := by
+  cases hh : h₂ s with
+  | error e => simp [histThen, hh]
+  | ok r => simp [histThen, hh]
+
+theorem histThen_cons (v : Val) (r : Except Err (List Val × Store)) (h₂ : Store → Except Err (List Val × Store)) :
+    histThen (match r with | .error e => .error e | .ok (rs, sf) => .ok (v :: rs, sf)) h₂ =
+      (match histThen r h₂ with | .error e => .error e | .ok (rs, sf) => .ok (v :: rs, sf)) := by
+  cases r with
+  | error e => simp [histThen]
+  | ok p =>
+    obtain ⟨rs, sf⟩ := p
+    cases hh : h₂ sf with
+    | error e => simp [histThen, hh]
+    | ok q => simp [histThen, hh]
+
+theorem histG_append (ls : List Live) (evs₂ : List Event) :
+    ∀ (evs₁ : List Event) (s : Store), histG ls (evs₁ ++ evs₂) s = histThen (histG ls evs₁ s) (histG ls evs₂) := by
+  intro evs₁
+  induction evs₁ with
+  | nil => intro s; rw [List.nil_append]; exact (histThen_ok_nil s _).symm
+  | cons ev evs ih =>
+    intro s
+    obtain ⟨i, vs⟩ := ev
+    simp only [List.cons_append, histG]
+    cases h1 : ls[i]? with
+    | none => simp [histThen]
+    | some l =>
+      cases h2 : expand l.inv with
+      | none => simp [histThen, h2]
+      | some e =>
+        cases h3 : closureG e l.body l.fuel vs s with
+        | error er => simp [histThen, h2, h3]
+        | ok r =>
+          obtain ⟨v, s'⟩ := r
+          simp only [h2, h3, ih]
+          exact (histThen_cons v _ _).symm
+
+theorem histE_append (ls : List Live) (evs₂ : List Event) :
+    ∀ (evs₁ : List Event) (s : Store), histE ls (evs₁ ++ evs₂) s = histThen (histE ls evs₁ s) (histE ls evs₂) := by
+  intro evs₁
+  induction evs₁ with
+  | nil => intro s; rw [List.nil_append]; exact (histThen_ok_nil s _).symm
+  | cons ev evs ih =>
+    intro s
+    obtain ⟨i, vs⟩ := ev
+    simp only [List.cons_append, histE]
+    cases h1 : ls[i]? with
+    | none => simp [histThen]
+    | some l =>
+      cases h3 : evalE l.inv l.body l.fuel vs s with
+      | error er => simp [histThen, h3]
+      | ok r =>
+        obtain ⟨v, s'⟩ := r
+        simp only [h3, ih]
+        exact (histThen_cons v _ _).symm
+
 end Rlib.Lambda
